@@ -914,3 +914,6 @@ mutant("C16-M44", "C16", "R16q", "impact interaction column recognised under the
 mutant("C16-M45", "C16", "R16q", "a baseline of 0 is treated as missing", PR, "ProgramSet._read_effects", "                            if x.value is not None:  # test `is not None` because it might be entered as 0\n                                baseline = float(x.value)", "                            if x.value:\n                                baseline = float(x.value)")
 mutant("C16-M46", "C16", "R16q", "uncertainty written from the baseline", PR, "ProgramSet._write_effects", "sheet.write(current_row, 4, covout.sigma,", "sheet.write(current_row, 4, covout.baseline,")
 twin("C16-T11", "C16", "header lower-cased once into a local", PR, "ProgramSet._read_effects", "                    try:\n                        if idx_to_header.get(i, None) is None:", "                    try:\n                        if idx_to_header.get(i, None) is None:  # blank header")
+mutant("C16-M47", "C16", "R16r", "targeted populations written as N", PR, "ProgramSet._write_targeting", "if pop in prog.target_pops:", "if pop not in prog.target_pops:")
+mutant("C16-M48", "C16", "R16r", "every non-empty cell counts as a targeted compartment", PR, "ProgramSet._read_targeting", "            for i in range(comp_start_idx, len(headers)):\n                if row[i].value and sc.isstring(row[i].value) and row[i].value.lower().strip() == \"y\":", "            for i in range(comp_start_idx, len(headers)):\n                if row[i].value and sc.isstring(row[i].value):")
+mutant("C16-M49", "C16", "R16r", "program built with the population list for both targets", PR, "ProgramSet._read_targeting", "target_pops=target_pops, target_comps=target_comps)", "target_pops=target_pops, target_comps=target_pops)")
